@@ -208,6 +208,9 @@ def gen_scenario(rng):
             if plan["source"] == "input":
                 plan["shape"], scn["out"] = "scalar", None
         if scn["df_annotation"] == "union":
+            # members are tried one after the other on the same object: with
+            # inplace=True what the second member sees is not settled
+            options["inplace"] = False
             add_frame("df_alt", model=True)
             if rng.random() < 0.4:
                 # the argument conforms to the second member instead
@@ -561,28 +564,69 @@ def features(scn, var):
     }
 
 
+def _misbind_prediction(scn, var):
+    """What decorators.py's ``sig.bind_partial(None, *args)`` branch would
+    validate: -> set of predicted outcome summaries (or {"TypeError"})."""
+    import pandera.errors as pe
+    params = P.TEMPLATES[scn["template"]]
+    first = {"method": "self", "classmethod": "cls"}[var["binding"]]
+    fn = P.make_fn(params, first, False, lambda *a: None)
+    w = World(scn)
+    preds = []
+    try:
+        owner = object()
+        args = [owner] + [w.materialise(a, True) if not isinstance(a, list)
+                          else None for a in var["args"]]
+        try:
+            ba = inspect.signature(fn).bind_partial(None, *args)
+        except TypeError:
+            return ["<bind-raises-TypeError>"]
+        for d in scn["designated"]:
+            if d in var["kwargs"] or d not in ba.arguments:
+                continue
+            try:
+                w.schema(d).validate(ba.arguments[d], **scn["options"])
+                preds.append("<accepted-wrong-object>")
+            except (pe.SchemaError, pe.SchemaErrors) as e:
+                preds.append(P.exc_norm(e))
+            except Exception as e:
+                preds.append(("exc", type(e).__name__))
+    finally:
+        w.cleanup()
+    return preds
+
+
 def classify(scn, var, act, ref, kind):
+    """Mechanism of a deviation, decided from the *observed behaviour*: a
+    known mechanism is only named when what was observed is exactly what
+    that mechanism predicts for this program (so a different defect on the
+    same call shape stays unclassified)."""
     f = features(scn, var)
     out = act.get("outcome")
+    calls = act["rec"]["calls"]
     if f["deco"] == "check_input" and f["designation"] == "int":
-        if f["df_by_keyword"] and out and out[1] == ("exc", "IndexError"):
+        if f["df_by_keyword"] and out and out[1] == ("exc", "IndexError") \
+                and "index" in (act.get("exc_repr") or ""):
             return M_INT_KW
         if f["options_nondefault"]:
             ref0 = execute(scn, var, True, options=dict(P.NO_OPTIONS))
             if not compare(scn, var, act, ref0, Run(PID, "", "")):
                 return M_D8
-    if f["deco"] in ("check_input", "check_io") and f["method_one_arg_short"] and (
-            (out and out[1] == ("exc", "TypeError")
-             and "too many positional" in (act.get("exc_repr") or ""))
-            or (f["designation"] in ("str", "-") and not f["df_by_keyword"])):
+    if f["deco"] in ("check_input", "check_io") and f["method_one_arg_short"] \
+            and out and out[0] == "raise" and not calls:
         # decorators.py check_input._wrapper: is_method and len(args) ==
         # len(sig.parameters) - 1  ->  sig.bind_partial(None, *args)
-        return M_METHOD_MISBIND
+        preds = _misbind_prediction(scn, var)
+        if any(out[1] == p for p in preds) or (
+                "<bind-raises-TypeError>" in preds
+                and out[1] == ("exc", "TypeError")
+                and "too many positional" in (act.get("exc_repr") or "")):
+            return M_METHOD_MISBIND
     if f["deco"] in ("check_input", "check_io") and f["designation"] in ("str", "-") \
-            and f["has_varpos"] and not f["df_by_keyword"] and act["rec"]["calls"]:
-        got = act["rec"]["calls"][0].get("rest")
+            and f["has_varpos"] and not f["df_by_keyword"] and calls:
+        got = calls[0].get("rest")
         want = ref["rec"]["calls"][0].get("rest") if ref["rec"]["calls"] else None
-        if want is not None and got == ("tuple", [want]):
+        if want is not None and want[1] and got == ("tuple", [want]):
             return M_STR_VARARGS
     if f["deco"] == "check_types" and scn.get("df_annotation") == "union" \
             and scn["options"]["lazy"] \
@@ -607,13 +651,19 @@ def classify(scn, var, act, ref, kind):
         # _check_arg: SchemaErrors(schema_errors=error_handler.collect_errors)
         # (a bound method) when the argument is not a pandas DataFrame
         return M_CT_UNION_NONPANDAS
-    if f["deco"] == "check_types":
-        nrest = len(scn["values"].get("rest", []))
-        if f["has_varpos"] and nrest == 1 and len(var["args"]) >= 1 and \
-                len(var["args"]) == len([p for p in P.TEMPLATES[scn["template"]]
-                                         if p[1] in ("posonly", "pos")]) + 1:
+    if f["deco"] == "check_types" and calls:
+        # validate_args: len(arguments) > len(named_arguments) is false for
+        # exactly one *args value -> the tuple itself is passed on as one value
+        got = calls[0].get("rest")
+        if f["has_varpos"] and len(scn["values"].get("rest", [])) == 1 \
+                and got and got[0] == "tuple" and len(got[1]) == 1 \
+                and got[1][0][0] == "tuple" and len(got[1][0][1]) == 1:
             return M_CT_ONE_STAR
-        if f["kw_named_kw"]:
+        # validate_kwargs: kwargs.keys() == named_kwargs.keys() when the only
+        # extra keyword is named like the **kw parameter -> nested dict
+        got = calls[0].get("kw")
+        if f["kw_named_kw"] and got and got[0] == "dict" and len(got[1]) == 1 \
+                and got[1][0][0] == "'kw'" and got[1][0][1][0] == "dict":
             return M_CT_KW_NAME
     return None
 
